@@ -54,14 +54,20 @@ def alphabet(tier):
 def run(tier, seed, jobs):
     from .hcommon import run_h
 
+    A = "A"
+    core = [{"s": A, "op": "delete", "m": "a"}, {"s": A, "op": "create", "m": "a"}, {"s": A, "op": "rename", "m": "a", "to": "c"},
+            {"s": A, "op": "rename", "m": "c", "to": "a"}, {"s": A, "op": "subscribe", "m": "a"}, {"s": A, "op": "unsubscribe", "m": "a"},
+            {"s": A, "op": "delete", "m": "a/b"}, {"s": A, "op": "create", "m": "a/b"}]
     return run_h(PROP, RULES, [{"cfg_ref": ("vf.props.c17", "cfg", []), "alphabet": alphabet(tier), "depth": 3 if tier == "quick" else 4,
-                                "label": "INBOX(1), a(1), a/b"}],
+                                "label": "INBOX(1), a(1), a/b"},
+                               {"cfg_ref": ("vf.props.c17", "cfg", []), "alphabet": core, "depth": 4 if tier == "quick" else 6,
+                                "label": "core alphabet (delete/create/rename/subscribe of a and a/b), deep"}],
                  ("C17", "C05"), jobs, seed,
                  ["names from a fixed alphabet of 10 (nesting depth 3, space, +, [ ], inbox/s, Drafts); 14 (reference, pattern) pairs for LIST and LSUB after every history",
                   "asimap's documented rule 'a deleted mailbox that is subscribed or has inferiors is kept as \\Noselect' is part of the model; attributes other than "
                   "\\Noselect/\\HasChildren/\\HasNoChildren (SPECIAL-USE, \\Marked) are not compared",
                   "LIST-EXTENDED selection/return options are not part of this check's menu"],
-                 time_budget=85 if tier == "quick" else 900)
+                 time_budget=170 if tier == "quick" else 900)
 
 
 def replay(rec):
